@@ -60,7 +60,7 @@ Inductive robs :=
   | RVsF (vs : list (list float))
   | RAng (c s : float)                       (* cos and sin of the returned angle *)
   | RRoots (rs : list (float * float * float))   (* re, im, phase of every returned root *)
-  | RExc (e : exn)
+  | RRaised        (* the call raised; which exception class / message is NOT compared (the property leaves it free) *)
   | RSkip          (* ill-conditioned input (collinear points): any answer of the float pipeline is accepted here *)
   | ROther.
 
@@ -147,7 +147,7 @@ Definition agree (m : mres) (r : robs) : bool :=
                                       (PrimFloat.mul (PrimFloat.mul tol9 (mkf 64 0)) r)) &&
                   (PrimFloat.eqb m PrimFloat.zero ||
                    PrimFloat.leb (PrimFloat.abs (m_angle_diff float Fops a ph)) tol6)) l rs
-  | MExc a, RExc b => exn_eqb a b
+  | MExc _, RRaised => true
   | _, RSkip => true
   | _, _ => false
   end.
